@@ -719,6 +719,7 @@ func (c *Context) Cbrt(d, x *Decimal) (Condition, error) {
 			break
 		}
 	}
+	verifTape("cbrt.iter", 0, &z)
 
 	z0.Set(x)
 	// z is an approximation of the root, so it is rounded to nearest (as in
